@@ -20,7 +20,8 @@ func init() {
 			"R2 atomic sections — no Interface method of *Registry performs two successive critical sections of Registry.mu where the second consumes a value produced by the first (check-then-act); " +
 			"R3 seal — every append to Buffer.buf is dominated, inside the same critical section, by a test that the buffer is not yet committed, so the digest verified at commit is the digest of the bytes stored; " +
 			"R4 the lock-order graph (acquire B while holding A) is acyclic. " +
-			"R6 Buffer.Commit reports success only after the commit function returned nil in this call; R7 the server answers a manifest GET by tag with the single backend call GetTag.",
+			"R6 Buffer.Commit reports success only after the commit function returned nil in this call; R7 the server answers a manifest GET by tag with the single backend call GetTag. " +
+			"R8 (shared with C04.R6) a refused Buffer.Write assigns no field of the upload, so concurrent stale writers cannot disarm the offset check for one another.",
 		NotDecided: "linearizability of histories itself, and races that a lockset abstraction cannot see (none known: ocimem uses no atomics or channels); behaviour through ociserver relies on the same registry methods.",
 		Technique:  "static analysis: lockset dataflow + greatest-fixpoint held-at-entry over the VTA call graph, critical-section counting, lock-order graph",
 	})
@@ -242,6 +243,8 @@ func runC08(c *core.Ctx) {
 	c08LockOrder(c, la)
 	bufferCommitAfterStore(c, "C08.R6")
 	serverTagReadIsOneCall(c, "C08.R7")
+	// a refused Write changes nothing (shared with C04.R6): two stale writers racing on one session cannot disarm the offset check for each other
+	bufferFailedWriteLeavesState(c, "C08.R8")
 }
 
 // acquires: does calling fn (transitively, within the package) acquire lock tok?
